@@ -20,7 +20,8 @@ ENTRIES = ["a0", "a1", "a2", "a3", "a999", "eI", "eW", "eO"]
 # through `write!(w, "<literal>")` (a format string without arguments)
 LITS = ["\x1b[", "1m", "31mred", "\x1b", "[0m", "\x1b]0;t", "itle\x07", "plain", "\x1b[38;5;", "9mX", "a\x1b[1", ";4mb",
         "\x1bP", "q\x1b\\", "\u00e9", "\u20ac\x1b[", "0;1m\u20ac", "\x1b[1mbold\x1b[0m", "\x1b[38;2;1;", "2;3mrgb", "x\x1b[4", "4my\n",
-        "\x1b[0", "m", "tail\x1b[3"]
+        "\x1b[0", "m", "tail\x1b[3",
+        "a\x7fb", "\x7f", "a\x08b\x00c", "\x07bel", " ~\x7f~ ", "tab\there\r\n", "\x1f", "\u009cx", "\x0cff\x0b"]
 
 
 def literal_ops(rng, n=None):
@@ -37,6 +38,58 @@ def literal_ops(rng, n=None):
         else:
             ops.append("F")
     return ",".join(ops)
+
+
+def strm_spec_observe(name, lines, results, impls):
+    """`strm` cases whose specification-level answer exists (stripping stream over an accept-all Vec / File,
+    only write_all / write_fmt / write): the bytes delivered must be Spec/Strip of the data, whatever the chunking"""
+    out = []
+    for label, _ in impls:
+        for i, l in enumerate(lines):
+            if not l.startswith("strm "):
+                continue
+            sp = results["spec"][i]
+            if not sp.startswith("MERGED"):
+                continue
+            r = results["impl-" + label][i]
+            parts = r.split(" | ")
+            got = parts[1] if len(parts) > 1 else "?"
+            want = sp[7:] or "-"
+            if got != want and len(out) < 5:
+                out.append({"stream": name, "case": l, "build": label, "impl": r[:2000], "spec": "delivered bytes = " + want[:2000], "model": results["model"][i][:2000]})
+    return out
+
+
+def big_chunk_cases(rng, thorough):
+    """write_all / write_fmt chunks at and beyond 64 KiB that end inside a sequence or a character, followed by the rest"""
+    lines = []
+    sizes = [65535, 65536, 65537, 70001, 131072 + 3, 262144 + 1] if thorough else [65536, 65537]
+    tails = [(list(b"\x1b[1"), list(b"mX\x1b[0mY")), (list(b"\x1b]0;ti"), list(b"tle\x07Z")), (list("\u20ac".encode())[:2], list("\u20ac".encode())[2:] + list(b"!")),
+             (list(b"\x1b"), list(b"[31mR")), (list(b"ab"), list(b"cd"))]
+    for size in sizes:
+        for j, (end, rest) in enumerate(tails if thorough else tails[:3]):
+            body = []
+            while len(body) < size - len(end):
+                body += gen.grammar_stream(rng, valid_utf8=True, pieces=5) + list(b"plain text 0123456789 ")
+            body = body[:size - len(end)]
+            # do not cut the padding inside a character
+            while body and 0x80 <= body[-1] <= 0xBF or (body and body[-1] >= 0xC0):
+                body.pop()
+            body += [0x78] * (size - len(end) - len(body))
+            first = body + end
+
+            def utf8(bs):
+                try:
+                    bytes(bs).decode("utf-8")
+                    return True
+                except UnicodeDecodeError:
+                    return False
+            for mode in ("strip", "never"):
+                for op in ("a", "f"):
+                    if op == "f" and not (utf8(first) and utf8(rest)):
+                        continue
+                    lines.append("strm %s vec - %s:%s,%s:%s" % (mode, op, gen.hexs(first), op, gen.hexs(rest)))
+    return lines
 
 
 def frag_split(rng, bs):
@@ -126,7 +179,7 @@ class C06(Prop):
 
     def observe(self, ctx, name, lines, results):
         if not name.startswith("protocol"):
-            return []
+            return strm_spec_observe(name, lines, results, ctx["impls"])
         def whole(l):
             f = l.split(" ")[2]
             return "".join(x for x in f.split("/") if x != "-") or "-"
